@@ -922,6 +922,9 @@ fn run_session(srv_port: u16, c: &SessCase, dir: &std::path::Path, uniq: u64) ->
     if !finished {
         viol = Some(sess_fail("file_loaded", format!("the server never announced all {} messages twice", n)));
     }
+    if cl.log.iter().any(|e| matches!(e, Ev::FileInfo(k) if *k < n) || matches!(e, Ev::StreamInfo { processed, .. } if *processed < n)) {
+        tags.push("sess_saw_partial_load".into());
+    }
     // lifecycle start times (latest announcement wins)
     let mut lcs: BTreeMap<u32, u64> = BTreeMap::new();
     for e in &cl.log {
@@ -1284,7 +1287,7 @@ fn gen_file(rng: &mut Rng, big: bool) -> Vec<FRun> {
     if big {
         let nruns = 8 + rng.below(12);
         for _ in 0..nruns {
-            let cnt = 500 + rng.below(2500) as u32;
+            let cnt = 3000 + rng.below(6000) as u32;
             let dts = *rng.pick(&[0u32, 0, 1, 2]);
             v.push(FRun { cnt, ecu: 1, apid: rng.below(3) as u8, ctid: rng.below(2) as u8, ts0: ts, dts });
             ts += cnt * dts + rng.below(3) as u32;
@@ -1332,7 +1335,7 @@ fn gen_sess(rng: &mut Rng, racing: bool, sorted: bool) -> SessCase {
                 ops.push(SOp::New { settle, is_stream: true, binary: true, fs: gen_filters(rng), start, end });
             }
             4 => ops.push(SOp::Search { k: rng.below(kinds.len() as u64) as usize, start: rng.below(n + 2), maxr: *rng.pick(&[0u64, 1, 1, 2, 3, 100]), fs: gen_filters(rng) }),
-            5 | 6 => ops.push(SOp::Pages { k: rng.below(kinds.len() as u64) as usize, start: if racing { n.saturating_sub(1 + rng.below(2500)) } else { rng.below(n / 2 + 1) }, maxr: if racing { 40 + rng.below(100) } else { *rng.pick(&[1u64, 1, 2, 3, 5]) }, fs: gen_filters(rng) }),
+            5 | 6 => ops.push(SOp::Pages { k: rng.below(kinds.len() as u64) as usize, start: if racing { n.saturating_sub(1 + rng.below(1500)) } else { rng.below(n / 2 + 1) }, maxr: if racing { 40 + rng.below(100) } else { *rng.pick(&[1u64, 1, 2, 3, 5]) }, fs: gen_filters(rng) }),
             7 => ops.push(SOp::LookIdx { k: rng.below(kinds.len() as u64) as usize, idx: rng.below(n + 2) }),
             8 => ops.push(SOp::LookTime { k: rng.below(kinds.len() as u64) as usize, t_ms: BASE_US / 1000 + rng.below(max_ts / 10 + 3) }),
             _ => {
@@ -1461,13 +1464,13 @@ fn corpus_sess() -> Vec<SessCase> {
         SessCase {
             sorted: false,
             preload: false,
-            file: vec![FRun { cnt: 9000, ecu: 1, apid: 0, ctid: 0, ts0: 0, dts: 1 }, FRun { cnt: 9000, ecu: 1, apid: 1, ctid: 0, ts0: 9000, dts: 0 }, FRun { cnt: 9000, ecu: 1, apid: 2, ctid: 1, ts0: 9000, dts: 2 }],
+            file: vec![FRun { cnt: 30000, ecu: 1, apid: 0, ctid: 0, ts0: 0, dts: 1 }, FRun { cnt: 30000, ecu: 1, apid: 1, ctid: 0, ts0: 30000, dts: 0 }, FRun { cnt: 30000, ecu: 1, apid: 2, ctid: 1, ts0: 30000, dts: 2 }],
             ops: vec![
-                SOp::New { settle: false, is_stream: false, binary: true, fs: vec![(0, 1, 1)], start: 8990, end: 9010 },
-                SOp::New { settle: false, is_stream: true, binary: true, fs: vec![(1, 1, 0)], start: 17990, end: 18010 },
-                SOp::Window { settle: true, k: 1, start: 8995, end: 9005 },
-                SOp::Pages { k: 1, start: 17200, maxr: 300, fs: vec![(0, 2, 1)] },
-                SOp::LookTime { k: 1, t_ms: t(900) },
+                SOp::New { settle: false, is_stream: false, binary: true, fs: vec![(0, 1, 1)], start: 29990, end: 30010 },
+                SOp::New { settle: false, is_stream: true, binary: true, fs: vec![(1, 1, 0)], start: 59990, end: 60010 },
+                SOp::Window { settle: true, k: 1, start: 29995, end: 30005 },
+                SOp::Pages { k: 1, start: 59200, maxr: 300, fs: vec![(0, 2, 1)] },
+                SOp::LookTime { k: 1, t_ms: t(3000) },
                 SOp::LookIdx { k: 1, idx: 100 },
             ],
         },
